@@ -178,6 +178,59 @@ def run_single(ctx, rng, N):
                 ctx.violation("C07:EOFBootstrapper:names:error", "EOFBootstrapper on a model with sample_name='smp' raised %r" % (e,), replay)
 
 
+def run_two_sample_dims(ctx, rng, N):
+    """two sample dimensions: every relative order of the sample dimensions in the data and in `dim=`, list items
+    that carry the sample dimensions in different orders, order-dependent models included"""
+    import xarray as xr
+    specs = Z.specs()
+    names = ["EOF", "ComplexEOF", "ExtendedEOF", "SparsePCA", "HilbertEOF", "OPA"]
+    for i in range(N):
+        name = names[i % len(names)]
+        sp = specs[name]
+        nt, nm, p = int(rng.integers(5, 8)), int(rng.integers(2, 4)), int(rng.integers(3, 6))
+        da3 = base_data(rng, nt * nm, 1, p, cplx=sp.cplx, red=sp.ordered)
+        da = xr.DataArray(da3.values.reshape(nt, nm, p), dims=("time", "member", "x"),
+                          coords={"time": np.arange(nt), "member": np.arange(nm) + 10, "x": np.arange(p) * 1.0})
+        replay = dict(kind="two-sample-dims", cls=name, data=np.asarray(da.values), shape=da.shape)
+        upto = name in ("SparsePCA", "OPA") or sp.cplx or name == "HilbertEOF"
+        try:
+            m0 = sp.make(2)
+            m0.fit(da, ("time", "member"))
+            r0 = results(m0, "single")
+        except Exception as e:
+            ctx.violation("C07:%s:two-sample-dims:error:%s" % (name, C.errkind(e)), "%s fit with dim=('time','member') raised %r" % (name, e), replay)
+            continue
+        cut = int(rng.integers(1, p))
+        a, b = da.isel(x=slice(0, cut)), da.isel(x=slice(cut, None)).rename({"x": "y"})
+        vs = [("transpose-samples", da.transpose("member", "time", "x")), ("transpose-all", da.transpose("x", "member", "time")),
+              ("list-same-order", [a, b]), ("list-mixed-order", [a, b.transpose("member", "time", "y")]),
+              ("list-mixed-order2", [a.transpose("x", "member", "time"), b.transpose("time", "y", "member")])]
+        r0l = None
+        for vname, dv in vs:
+            ctx.case(("c07-2s", name, vname, da.shape, i), nontrivial=True, tag="%s/two-sample-dims/%s" % (name, vname),
+                     sample=dict(cls=name, shape=list(da.shape), variant=vname))
+            try:
+                m1 = sp.make(2)
+                m1.fit(dv, ("time", "member"))
+                r1 = results(m1, "single")
+            except Exception as e:
+                ctx.violation("C07:%s:two-sample-dims:%s:error:%s" % (name, vname, C.errkind(e)), "%s fit raised %r on %s" % (name, e, vname), dict(replay, variant=vname))
+                continue
+            if vname.startswith("list"):
+                # a list is compared with the list in the reference layout (component containers differ from the single array's)
+                if r0l is None:
+                    r0l = r1
+                    # the list fit sees the same matrix as the single array: same singular values and scores
+                    compare(ctx, "C07:%s:two-sample-dims:%s" % (name, vname), "%s on %s vs the unsplit array" % (name, vname), (r0[0], [], r0[2]), (r1[0], [], r1[2]),
+                            dict(replay, variant=vname), upto_sign=upto, tol=1e-5 if name == "SparsePCA" else 1e-6)
+                    continue
+                compare(ctx, "C07:%s:two-sample-dims:%s" % (name, vname), "%s on %s vs list-same-order" % (name, vname), r0l, r1, dict(replay, variant=vname),
+                        upto_sign=upto, tol=1e-5 if name == "SparsePCA" else 1e-6)
+            else:
+                compare(ctx, "C07:%s:two-sample-dims:%s" % (name, vname), "%s under %s" % (name, vname), r0, r1, dict(replay, variant=vname), upto_sign=upto,
+                        tol=1e-5 if name == "SparsePCA" else 1e-6)
+
+
 def run_cross(ctx, rng, N):
     specs = Z.specs()
     names = ["MCA", "CCA", "CPCCA", "ComplexMCA"]
@@ -220,6 +273,7 @@ def run(ctx):
     C.setup_impl_env()
     rng = ctx.rng.child("c07").np
     run_single(ctx, rng, ctx.n(21, 420))
+    run_two_sample_dims(ctx, rng, ctx.n(12, 240))
     run_cross(ctx, rng, ctx.n(8, 200))
     ctx.oblige("oracle:layout and naming invariance on every model class", "oracle", not ctx.violations)
 
